@@ -329,4 +329,4 @@ def run(prog, cg, accepted=None):
     a, ndec = prog_a(prog, cg, an, accepted or {})
     b, nloops = prog_b(prog, cg, an)
     d = prog_d(prog, an)
-    return RuleResult('R-PROG', a + b + d, 900, {'decoders': ndec, 'range_loops': nloops})
+    return RuleResult('R-PROG', a + b + d, 850, {'decoders': ndec, 'range_loops': nloops})
